@@ -28,7 +28,7 @@ rlbox_load_structs_from_library(c09);
 static Wd::sbx* SB;
 static uintptr_t BASE;
 static size_t SIZE;
-static uint64_t n_runs = 0, n_interleavings = 0, n_ok = 0, n_abort = 0, n_fired = 0;
+static uint64_t n_runs = 0, n_interleavings = 0, n_ok = 0, n_abort = 0, n_fired = 0, n_pairs = 0;
 
 static void report(const char* variant, const char* cls, const std::string& d) { mon::violation(mon::fmt("C09/%s/%s", variant, cls), d); }
 static bool in_region(const void* p) { auto a = reinterpret_cast<uintptr_t>(p); return a >= BASE && a - BASE < SIZE; }
@@ -108,7 +108,7 @@ static void write_source(const Case& c)
   memcpy(reinterpret_cast<void*>(BASE + c.off), c.A.data(), c.A.size());
 }
 
-static void judge(const Case& c, const Obs& o, bool aborted, const Bytes& A, const Bytes& B, const std::string& when)
+static void judge(const Case& c, const Obs& o, bool aborted, const Bytes& A, const Bytes& B, const std::string& when, const Bytes* C3 = nullptr)
 {
   n_runs++;
   mon::evals();
@@ -120,6 +120,8 @@ static void judge(const Case& c, const Obs& o, bool aborted, const Bytes& A, con
   if (o.have_result && o.result != o.entry) { report(c.name.c_str(), "result-differs-from-what-verifier-saw", what); return; }
   // provenance: every delivered element equals what its source cell held before or after the action
   auto ea = c.elems(A), eb = c.elems(B);
+  const Bytes& C = C3 ? *C3 : B; // third source state (two-action sequences)
+  auto ec = c.elems(C);
   if (c.is_string) {
     size_t L = strnlen(reinterpret_cast<const char*>(o.entry.data()), o.entry.size());
     if (L == o.entry.size()) { report(c.name.c_str(), "string-not-terminated-inside-its-buffer", what); return; }
@@ -129,7 +131,7 @@ static void judge(const Case& c, const Obs& o, bool aborted, const Bytes& A, con
     }
     for (size_t i = 0; i < L; i++) {
       unsigned char ch = o.entry[i];
-      bool okc = (i < A.size() && A[i] == ch) || (i < B.size() && B[i] == ch);
+      bool okc = (i < A.size() && A[i] == ch) || (i < B.size() && B[i] == ch) || (i < C.size() && C[i] == ch);
       if (!okc) { report(c.name.c_str(), "delivered-byte-never-held-by-source", what + mon::fmt(": character %zu is 0x%02x", i, ch)); return; }
     }
   } else {
@@ -138,7 +140,7 @@ static void judge(const Case& c, const Obs& o, bool aborted, const Bytes& A, con
     for (size_t i = 0; i < ea.size() && pos + ea[i].size() <= o.entry.size(); i++) {
       Bytes d(o.entry.begin() + pos, o.entry.begin() + pos + ea[i].size());
       pos += ea[i].size();
-      if (d != ea[i] && d != eb[i]) { report(c.name.c_str(), "delivered-value-never-held-by-source", what + mon::fmt(": element %zu", i)); return; }
+      if (d != ea[i] && d != eb[i] && d != ec[i]) { report(c.name.c_str(), "delivered-value-never-held-by-source", what + mon::fmt(": element %zu", i)); return; }
     }
   }
   n_ok++;
@@ -175,6 +177,29 @@ static void run_case(Case& c)
       if (vsbx_ev.last_same_p1 == BASE + c.off) o.checked_len = vsbx_ev.last_same_p2 - vsbx_ev.last_same_p1 + 1;
       n_interleavings++;
       judge(c, o, ab, c.A, adv.B, mon::fmt("'%s' immediately before sandbox-memory access %d of %d", actn[a], k, N));
+    }
+  }
+  // sequences of two actions at two different accesses (sampled): source goes A -> B -> C during the call
+  if (N >= 2 && c.acts.size() >= 2) {
+    mon::Rng pr(mon::seed() * 977 + std::hash<std::string>()(c.name));
+    int pairs = mon::tier(24, 400);
+    for (int t = 0; t < pairs; t++) {
+      int k1 = static_cast<int>(pr.below(N - 1)), k2 = k1 + 1 + static_cast<int>(pr.below(N - 1 - k1));
+      Act a1 = c.acts[pr.below(c.acts.size())], a2 = c.acts[pr.below(c.acts.size())];
+      if (a1 == a2) continue;
+      if ((a1 == A_LENGTHEN || a2 == A_LENGTHEN) && c.at_region_end) continue;
+      write_source(c);
+      Adv adv1{ &c, apply(c, a1, c.A) }, adv2{ &c, apply(c, a2, c.A) };
+      Obs o;
+      vsbx_ev.last_same_p1 = 0;
+      mon::ctx("%s | %s before access %d then %s before access %d of %d", c.name.c_str(), actn[a1], k1, actn[a2], k2, N);
+      trap::arm2(k1, k2, adversary, &adv1, &adv2);
+      bool ab = mon::aborts([&] { c.call(o); });
+      trap::disarm();
+      if (vsbx_ev.last_same_p1 == BASE + c.off) o.checked_len = vsbx_ev.last_same_p2 - vsbx_ev.last_same_p1 + 1;
+      n_interleavings++;
+      n_pairs++;
+      judge(c, o, ab, c.A, adv1.B, mon::fmt("'%s' before access %d and '%s' before access %d of %d", actn[a1], k1, actn[a2], k2, N), &adv2.B);
     }
   }
 }
@@ -424,6 +449,7 @@ int main(int argc, char** argv)
     for (size_t i = 0; i < cases.size(); i++)
       if (i % mon::nslices() == mon::slice()) run_case(cases[i]);
     mon::extra_num("interleavings_executed", n_interleavings);
+    mon::extra_num("two_action_sequences_executed", n_pairs);
     mon::extra_num("adversary_actions_fired", n_fired);
   } else {
     threaded(rng);
